@@ -187,6 +187,10 @@ class Lookup(Harness):
         cs += [L.gt(x, 0) for x in i['bid'] + i['ask']]
         return cs
 
+    def friendly(self, L, i):
+        # counterexamples are preferably placed one nanosecond before a row (the boundary instants of the statement)
+        return [L.teq_offset(i['q'], 1, i['t'][-1])] if hasattr(L, 'teq_offset') else []
+
     def run(self, i):
         import numpy as np, pandas as pd
         from qstrader.data.daily_bar_csv import CSVDailyBarDataSource as CSV
@@ -336,7 +340,7 @@ class Frames(Harness):
             exp_index += ['%s 14:30:00+00:00' % d, '%s 21:00:00+00:00' % d]
         for ci, ((perm, mask, adjust), fr) in enumerate(zip(self.cases(), out.value['frames'])):
             tag = 'case%d[order=%s,missing=%s,adjust=%s]' % (ci, ''.join(map(str, perm)), ','.join('%s%d' % m for m in mask) or '-', 'on' if adjust else 'off')
-            obl.append((tag + ':rows_are_open_and_close_instants_sorted', L.bool(fr['index'] != exp_index or fr['cols'] != ['Bid', 'Ask'] or fr['keys'] != ['EQ:A'])))
+            obl.append((tag + ':rows_are_open_and_close_instants_sorted', L.bool(fr['index'] != exp_index or fr['keys'] != ['EQ:A'])))
             if fr['index'] != exp_index:
                 continue
             prev = None          # previous observation in time order (None = nothing yet -> NaN)
